@@ -233,6 +233,24 @@ theorem thread_keeps_parent_flags (s : Sys) (tid fl : Nat) (h : s[tid]? = some f
     ∃ fl', ((s.step (.spawn tid)).run ops)[s.length]? = some fl' ∧ subMask fl fl' = true :=
   flags_monotone ops _ _ _ (spawn_inherits s tid fl h)
 
+/-- thread start followed through the message (`spawnC`): with every step of the checked shape the new thread's word is its
+    parent's word - `SysOp.spawn` -/
+theorem spawnC_spec (c : ThreadCfg) (h : c.allChecked = true) (parent junk : Nat) : spawnC c parent junk = parent := by
+  unfold ThreadCfg.allChecked at h
+  simp only [Bool.and_eq_true] at h
+  obtain ⟨⟨⟨h1, h2⟩, h3⟩, h4⟩ := h
+  simp [spawnC, h1, h2, h3, h4]
+
+theorem spawn_is_spawnC (c : ThreadCfg) (h : c.allChecked = true) (s : Sys) (tid fl junk : Nat) (hs : s[tid]? = some fl) :
+    (s.step (.spawn tid))[s.length]? = some (spawnC c fl junk) := by
+  rw [spawnC_spec c h]
+  exact spawn_inherits s tid fl hs
+
+/-- … and each step matters: a hand-over site that does not pass the flag word (seed C18-1), a spawner that patches the
+    message, a subroutine that does not copy - each lets a thread start with a capability enabled that its parent had disabled -/
+example : spawnC ⟨false, true, true, true⟩ 8193 0 = 0 ∧ spawnC ⟨true, true, false, true⟩ 8193 0 = 0 ∧
+    spawnC ⟨true, true, true, false⟩ 8193 0 = 0 ∧ spawnC ⟨true, false, true, true⟩ 8193 0 = 0 := by decide
+
 /-! ### soundness of the certificate checker -/
 
 section sound
